@@ -229,6 +229,8 @@ def evalE (db : Db) : Nat → List Row → Row → Expr → Except Err Value
       if op == "and" then and3 x y
       else if op == "or" then or3 x y
       else if op == "+" || op == "-" || op == "*" then arith op x y
+      else if op == "isdistinct" then pure (.bool (x != y))          -- NULL-safe: never NULL
+      else if op == "isnotdistinct" then pure (.bool (x == y))
       else cmpOp op x y
     | .not a => do not3 (← evalE db f env row a)
     | .neg a => do arith "-" (.int 0) (← evalE db f env row a)
